@@ -4,9 +4,19 @@
 // C19: the operations of C06_writer.cpp re-decided with the store instrumentation (see C19_enum_utf.cpp for the argument): no store inside
 // the operation window hits a mutable module-level object of the linked code, for every input within the bound.
 #include "C06_writer.cpp"
+// timestamp writer, all three forms (the byte layout itself is C06's subject - incl. its recorded finding F5; here: both writer
+// classes produce the same bytes and neither stores to module-level state)
+VH_EXPORT int vp_h19_ts(const unsigned char* in, unsigned char* out) {
+	CBinTimestamp t = load_ts(in);
+	Outs o; both([&](IMsgPackWriter& w) { w.WriteValue(t); }, o); dump(o, out);
+	return o.rcs == vh::OK && same_bytes(o) && (o.ns == 6 || o.ns == 10 || o.ns == 15) && (o.ns == 15) == ((static_cast<uint64_t>(t.Seconds) >> 34) != 0);
+}
+//@ OBL {"name": "h19_ts", "prop": "vp_h19_ts", "assume": "va_h06d_ts", "in": 12, "out": 16, "unwind": 52, "bounds": "every int64 seconds, nanoseconds 0..999999999 (timestamp 32, 64 and 96)", "desc": "[C19 no-shared-write reading] WriteValue(CBinTimestamp): memory and stream writer agree, form chosen by the seconds range", "tier": "quick"}
 //@ OBL {"name": "h19_h06a_i64", "prop": "vp_h06a_i64", "in": 8, "out": 16, "unwind": 52, "bounds": "every int64_t", "desc": "[C19 no-shared-write reading] WriteValue(int64_t)", "tier": "quick"}
 //@ OBL {"name": "h19_h06c_str", "prop": "vp_h06c_str", "in": 8, "out": 16, "unwind": 52, "bounds": "string length 0..40 (fixstr/str8 threshold at 31/32), symbolic first and last byte", "desc": "[C19 no-shared-write reading] WriteValue(string_view): header + verbatim payload", "tier": "quick"}
 //@ OBL {"name": "h19_h06d_tp_s", "prop": "vp_h06d_tp_s", "in": 8, "out": 16, "unwind": 4, "bounds": "every int64 count", "desc": "[C19 no-shared-write reading] To(time_point<s>, CBinTimestamp&)", "tier": "quick"}
+//@ OBL {"name": "h19_h06b_double", "prop": "vp_h06b_double", "in": 8, "out": 16, "unwind": 52, "bounds": "every 64-bit pattern", "desc": "[C19 no-shared-write reading] WriteValue(double), memory and stream writer", "tier": "quick"}
+//@ OBL {"name": "h19_h06c_array", "prop": "vp_h06c_array", "in": 8, "out": 16, "unwind": 52, "bounds": "every size_t count", "desc": "[C19 no-shared-write reading] BeginArray, memory and stream writer", "tier": "quick"}
 //@ VEC * 7f00000000000000
 //@ VEC * 8000000000000000
 //@ VEC * feca000000000000
